@@ -246,22 +246,26 @@ async fn run_rounds(id: &str, cfg: &Value, seed: u64, rounds: usize, nconn: usiz
         }
         payloads.shuffle(&mut g.rng);
         // take the sockets out so that the writes really happen in parallel tasks
-        let barrier = std::sync::Arc::new(tokio::sync::Barrier::new(payloads.len()));
-        let mut handles = vec![];
+        let mut taken = vec![];
         for (c, d) in payloads {
             if let Some(cl) = sess.clients.get_mut(&c) {
                 if let Some(stream) = cl.stream.take() {
                     let nl = d.iter().filter(|b| **b == b'\n').count() as u64;
                     cl.sent_lines += nl;
-                    let b = barrier.clone();
-                    handles.push((c.clone(), tokio::spawn(async move {
-                        let mut stream = stream;
-                        b.wait().await;
-                        let _ = stream.write_all(&d).await;
-                        stream
-                    })));
+                    taken.push((c.clone(), d, stream));
                 }
             }
+        }
+        let barrier = std::sync::Arc::new(tokio::sync::Barrier::new(taken.len().max(1)));
+        let mut handles = vec![];
+        for (c, d, stream) in taken {
+            let b = barrier.clone();
+            handles.push((c, tokio::spawn(async move {
+                let mut stream = stream;
+                b.wait().await;
+                let _ = tokio::time::timeout(Duration::from_secs(3), stream.write_all(&d)).await;
+                stream
+            })));
         }
         for (c, h) in handles {
             if let Ok(stream) = h.await {
